@@ -450,7 +450,9 @@ type procComp struct {
 	next consumer.Logs
 }
 
-func (p procComp) ConsumeLogs(ctx context.Context, ld plog.Logs) error { return p.next.ConsumeLogs(ctx, ld) }
+func (p procComp) ConsumeLogs(ctx context.Context, ld plog.Logs) error {
+	return p.next.ConsumeLogs(ctx, ld)
+}
 
 func (w *world) create(cfg component.Config, id component.ID) (*comp, error) {
 	gen := cfg.(*compCfg).Gen
